@@ -25,19 +25,19 @@ CLAIMED = {
          "Decides presence and exact shape of each documented acceptance/rejection: unknown key and duplicate key rejected in every struct reader, omitted field given its empty value, masked field implies its (local) mask bit with the bit the writer tests, external mask bit required and explicit false with set bit rejected in types without TL2, TL2 presence bit set by the key, tuple length enforced both ways, unknown union type rejected and every arm selecting its variant, Maybe read through Json2ReadMaybe, and the Json2ReadUnion / Json2ReadMaybe truth tables. Numbers as strings are C34's reader tables. Does not decide that the pieces compose to value equality with the canonical form.",
          "corpus-bounded; easyjson trusted", "DESIGN.md §3 C06"),
  "C07": ("other", "composition-shape rule on the six result transcoders + nat-argument/result-type agreement + C01/C03 rules on the result wrappers",
-         "Decides that every ReadResultX+WriteResultY transcoder is exactly read-into-ret (error checked), then write of the same ret from the input buffer to the output buffer with no other effect; that TL1 and JSON result codecs pass identical nat arguments and one result type; that the TL1 result pair is dual and the TL2 result wrapper triple agrees slot by slot. Value equality with decode-then-encode is this composition identity, not an executed comparison.",
+         "Decides that every ReadResultX+WriteResultY transcoder is exactly read-into-ret (error checked), then write of the same ret from the input buffer to the output buffer with no other effect; that TL1 and JSON result codecs pass identical nat arguments and one result type; that the TL1 result pair is dual and the TL2 result wrapper triple agrees slot by slot.  A JSON context handed to a transcoder must reach its read/write step.Value equality with decode-then-encode is this composition identity, not an executed comparison.",
          "trusts go/types; corpus-bounded", "DESIGN.md §3 C07"),
  "C08": ("other", "dominance (bound-before-use) dataflow over generated readers: allocations, slicings, loops, panics",
-         "Decides for every generated reader function (TL1, TL2, JSON, result readers, Builtin collection readers) that every input-sized allocation is dominated by a bound against the remaining input (CheckLengthSanity with a positive minimum size in TL1 — for corpora generated with the option — or len(r) < n → error in TL2), every non-constant slicing is dominated by the matching len/cap guard with facts killed on reassignment, no panic is called, and every loop is a range loop, a counted loop, an incrementing index loop or a lexer loop whose iterations consume a token or leave. One genuine defect class is recorded as a known finding (JSON tuple readers allocate nat_n elements up front). basictl's own readers are C33.",
+         "Decides for every generated reader function (TL1, TL2, JSON, result readers, Builtin collection readers) that every input-sized allocation is dominated by a bound against the remaining input (CheckLengthSanity with a positive minimum size in TL1 — for corpora generated with the option — or len(r) < n → error in TL2), every non-constant slicing is dominated by the matching len/cap guard with facts killed on reassignment, no panic is called, and every loop is a range loop, a counted loop, an incrementing index loop or a lexer loop whose iterations consume a token or leave.  Every non-constant index into a fixed-size array is bounded by the array length (loop bound through a constant / the array length / min(…, const), ranging over the array, or a dominating i == N → return). One genuine defect class is recorded as a known finding (JSON tuple readers allocate nat_n elements up front). basictl's own readers are C33.",
          "corpus-bounded; easyjson trusted; heap use as a number is not decided", "DESIGN.md §3 C08"),
  "C09": ("other", "must-define / no-stale-read dataflow over generated readers and Reset",
          "Decides on every path to a success return of every generated TL1/TL2 reader and Reset that each receiver field (hidden TL2 masks, union index included) is assigned, reset or handed to a sibling reader/Reset; that no condition reads a field before this call defined it; that collection readers re-slice/reallocate/clear the destination first; that temporaries stored into collections are fresh per iteration. JSON readers are covered by C06's omitted-field rule; error values are not compared.",
          "inductive summary: a sibling reader/Reset defines its operand; corpus-bounded", "DESIGN.md §3 C09"),
  "C10": ("other", "clone isomorphism of string/[]byte twins (generated wire programs and basictl clone pairs) modulo a declared substitution",
-         "Decides that each []byte twin has the same TL1/TL2 wire programs, slot tables and nested-call order as its string version modulo the declared substitution, that slice-backed dictionary readers keep what they decode, and that the basictl clone pairs are AST-isomorphic modulo (utf8.ValidString↔Valid, DecodeRuneInString↔DecodeRune, string(x)↔x).",
+         "Decides that each []byte twin has the same TL1/TL2 wire programs, slot tables and nested-call order as its string version modulo the declared substitution, that slice-backed dictionary readers keep what they decode, that the element temporaries of both variants are declared per iteration (decoded values own their storage), and that the basictl clone pairs are AST-isomorphic modulo (utf8.ValidString↔Valid, DecodeRuneInString↔DecodeRune, string(x)↔x).",
          "trusts C33 for primitive pairs; corpus-bounded", "DESIGN.md §3 C10"),
  "C12": ("other", "decision-table agreement between the dynamic interpreter and the generator/generated code (primitive table, presence rule, TL2 slot numbering, object framing)",
-         "Does NOT decide byte equality between the interpreter and generated code for all values. Decides that the interpreter's primitive value classes use the basictl primitive pairs the generated code uses for the same Go value types (TL1 and TL2, strings through the same length/padding helpers), that its struct class decides TL1 field presence by the same mask rule in reader and writer, that the TL2 slot numbering ((fieldIndex+1)%8 boundary and bit, bit 0 = variant index) is the same expression in the interpreter's reader, its writer and the generator's template, and that its TL2 object reader frames the body like the generated readers.",
+         "Does NOT decide byte equality between the interpreter and generated code for all values. Decides that the interpreter's primitive value classes use the basictl primitive pairs the generated code uses for the same Go value types (TL1 and TL2, strings through the same length/padding helpers), that its struct class decides TL1 field presence by the same mask rule in reader and writer, that the TL2 slot numbering ((fieldIndex+1)%8 boundary and bit, bit 0 = variant index) is the same expression in the interpreter's reader, its writer and the generator's template, that the block step of its field loops is taken for every field index (no continue/return before the boundary test), and that its TL2 object reader frames the body like the generated readers.",
          "clause only; arrays, dictionaries and unions of the interpreter are covered only through the shared basictl calls", "DESIGN.md §8.2"),
  "C13": ("other", "framing/typestate rules on every generated TL2 object reader plus decision table of basictl.TL2ParseSize/SkipSizedValue",
          "Decides that each object reader resets on size 0, cuts the body by the declared size after rejecting size > input, reads every field from the body only, returns the post-cut input on every success path without testing the body for leftovers (appended fields are skipped), reads later presence bytes only when bytes remain (else 0) and gives every absent field its empty value; that TL2ParseSize selects its three forms by the first byte and rejects only truncation and >MaxInt (no minimality test) and SkipSizedValue rejects length > input. Value equality between minimal and non-minimal encodings is not decided beyond 'same path after the size is parsed'.",
@@ -52,13 +52,13 @@ CLAIMED = {
          "Decides that every file-system mutator call site in the generator packages belongs to a confirmed owner, that in both directory writers the marker test precedes every mutation except creating the outdir, that mutated paths are the outdir or filepath.Join(outdir,…), that handled files leave the stale set, unchanged files are not rewritten and remaining stale files are removed. File-system races are not decided.",
          "trusts go/ssa+VTA (x/tools v0.29.0) and os semantics", "DESIGN.md §3 C16"),
  "C17": ("translation_validation", "constant evaluation and cross-check of registry tables against type constants and boxed writers",
-         "Cross-checks by constant evaluation, per corpus: meta registration literals ↔ factory registrations ↔ TLName()/TLTag() constants of the constructed Go type ↔ first word written by WriteTL1Boxed; function-ness ⇔ result transcoders exist; HaTL1/HaTL2 ⇔ readers are real, not stubs; names and non-zero tags pairwise distinct; every item has a factory and vice versa.",
+         "Cross-checks by constant evaluation, per corpus: meta registration literals ↔ factory registrations ↔ TLName()/TLTag() constants of the constructed Go type ↔ first word written by WriteTL1Boxed; function-ness ⇔ result transcoders exist; HaTL1/HaTL2 ⇔ readers are real, not stubs; names and non-zero tags pairwise distinct; every declaration without type parameters found by an independent scan of the .tl2 schema text is a registry item (also under --split-internal); every item has a factory and vice versa.",
          "programs = corpora; agreement with the schema text is not decided (schema seen only through the generator)", "DESIGN.md §3 C17"),
  "C18": ("other", "call-graph cycle analysis with gate/bracket edge labels over generated FillRandom, pairing and who-may-call rules, decision table of basictl's generator",
-         "Decides termination structurally: every recursive component of the FillRandom call graph has an exit — either every cycle has a call switched off by a depth-limited draw (0 at the depth limit) and a depth-bracketed call (bounded by maxDepth), or it is left by fair-coin gates with at most two recursive calls per activation (terminates almost surely); cycles through unconditional calls or arm 0 of a drawn union index are violations; pointer (recursive) fields are allocated before being filled; Increase/DecreaseDepth are paired; collections are sized by their nat parameter or a RandomSize draw and masks by RandomFieldMask(constant used bits); FillRandom draws only through the generator (no time/global rand/map iteration); basictl: RandomUint is 0 at the limit, RandomSize/FieldMask derive from it with identity default handlers, IncreaseDepth saturates, maxDepth >= 2. One defect repaired, two recorded as known findings.",
+         "Decides termination structurally: every recursive component of the FillRandom call graph has an exit — either every cycle has a call switched off by a depth-limited draw (0 at the depth limit) and a depth-bracketed call (bounded by maxDepth), or it is left by fair-coin gates with at most two recursive calls per activation (terminates almost surely); cycles through unconditional calls or arm 0 of a drawn union index are violations; pointer (recursive) fields are allocated before being filled; in basictl IncreaseDepth and DecreaseDepth are exact inverses (a counter saturating on one side only lifts the limit — repaired defect 5d122057); Increase/DecreaseDepth are paired; collections are sized by their nat parameter or a RandomSize draw and masks by RandomFieldMask(constant used bits); FillRandom draws only through the generator (no time/global rand/map iteration); basictl: RandomUint is 0 at the limit, RandomSize/FieldMask derive from it with identity default handlers, IncreaseDepth saturates, maxDepth >= 2. One defect repaired, two recorded as known findings.",
          "corpus-bounded; 'every writer accepts the value' only through C04's presence table", "DESIGN.md §3 C18"),
  "C19": ("other", "typestate-style guard rules on the token iterator + owner tables for panics and token-text slicing",
-         "Decides structural necessary conditions of a total TL1 parser: every token consumption outside the iterator's methods is control-dependent on a positive non-eof front-token test on the same iterator (so eof, always appended last by the lexer, is never consumed), expectOrPanic follows checkToken of the same kind, explicit panics and token-text slicing occur only at listed sites, unbounded loops have exits, and error printing slices file content only through safeRange or under a range test. Lexer byte-level totality and the recombination invariant are value-level and not decided.",
+         "Decides structural necessary conditions of a total TL1 parser: every token consumption outside the iterator's methods is control-dependent on a positive non-eof front-token test on the same iterator (so eof, always appended last by the lexer, is never consumed), expectOrPanic follows checkToken of the same kind, explicit panics and token-text slicing occur only at listed sites, unbounded loops have exits, and error printing slices file content only through safeRange or under a range test. Every index into the lexer input has a guard found on the syntax tree or a verified entry fact of its function, and every advance(n) takes at most the remaining input (recognised bounds or a triaged table with reasons). Lexer byte-level totality and the recombination invariant are value-level and not decided.",
          "clause only; trusts go/types and the listed lexer token shapes", "DESIGN.md §3 C19"),
  "C20": ("other", "typestate-style guard rules on the token iterator for the TL2 combinator parsers",
          "Same rules as C19 on the TL2 parser functions, plus expect*(eof) only as the loop exit of the file parser. The OptionalState progress discipline is covered only as 'unbounded loops have an exit'; termination by token consumption is not decided.",
@@ -76,16 +76,16 @@ CLAIMED = {
          "Decides that crc32() is ChecksumIEEE over canonicalForm(), that Construct.ID is computed only when no explicit tag was parsed and explicit tags are stored verbatim (base 16), and that nothing reachable from canonicalForm reads layout/comment fields or as-written arithmetic or crosses into the ordinary printer family. One genuine deviation is a known finding (bracket fields). The CRC value and token-level layout of the canonical text are not decided.",
          "trusts go/types and hash/crc32", "DESIGN.md §3 C23"),
  "C24": ("other", "must-pass-through and loop-totality rules on both tag checks",
-         "Decides that every success return of Kernel.Compile and of the legacy generator passes an error-checked checkTagCollisions, that both checks inspect every combinator (no early success/break), reject tag 0 for TL1, reject a lookup hit and insert the tag afterwards, and that the TL2 parser rejects explicit magic 0. Implicit TL2 magics are out of scope.",
+         "Decides that every success return of Kernel.Compile and of the legacy generator passes an error-checked checkTagCollisions, that both checks inspect every combinator (no early success/break), reject tag 0 for TL1, reject a lookup hit and insert the tag afterwards, and that the TL2 parser rejects explicit magic 0. The check is followed through same-package helpers and all its loops must use one tag table (TL1 and TL2 tags are unique against each other). Implicit TL2 magics are out of scope.",
          "trusts go/types", "DESIGN.md §3 C24"),
  "C26": ("other", "loop-totality and shape rules on GenerateTLO",
          "Does NOT decide that the TLO describes the schema for all schemas, nor decode-back equality (the TL1 duality of the gentlo types is C01). Decides the structural clauses: every constructor unconditionally XORs its tag into its type's name and increments the constructor count (only functions are skipped), a type is created once per name with arity and parameter kinds taken from the declaration, every combinator is listed exactly once with Name = Crc32(), Id = its name and TypeName looked up by type name, and the three counts are list lengths.",
          "clause only; exact-shape rules on one function", "DESIGN.md §8.2"),
  "C28": ("other", "loop-totality, comparer-coverage and rejection-presence rules on the linter source (necessary conditions only)",
-         "Decides necessary conditions of linter soundness: checking loops are total over the old schema, the type comparer reads every wire-relevant part of a type reference, each documented unsafe edit has its rejection. It does NOT decide soundness itself (acceptance ⇒ identical encodings for all values), which depends on the value-level bit-usage analysis.",
+         "Decides necessary conditions of linter soundness: checking loops are total over the old schema, the type comparer reads every wire-relevant part of a type reference, each documented unsafe edit has its rejection. The memoised bit-usage traversal merges results of already visited children. It does NOT decide soundness itself (acceptance ⇒ identical encodings for all values), which depends on the value-level bit-usage analysis.",
          "clause only; trusts go/types", "DESIGN.md §3 C28"),
  "C30": ("other", "rejection-presence table + loop-totality (position independence) + comparer coverage on the linter source",
-         "Decides that each documented unsafe edit resolves to an error return under its characteristic guard, that no checking loop can be left early (so position of the edit does not matter) and that the type comparer covers name, bare marker, arguments and arithmetic values. Whether each guard is semantically right for all schema pairs is not decided.",
+         "Decides that each documented unsafe edit resolves to an error return under its characteristic guard, that no checking loop can be left early (so position of the edit does not matter) and that the type comparer covers name, bare marker, arguments and arithmetic values. In the memoised traversals of the bit-usage analysis a child's result is merged for children visited earlier too. Whether each guard is semantically right for all schema pairs is not decided.",
          "trusts go/types and the transcription of the documented unsafe edits", "DESIGN.md §3 C30"),
  "C33": ("other", "decision-table extraction from basictl source compared with the documented layout and across sibling functions",
          "Decides the layout tables of TL1 strings (arm guards, header sizes, length byte positions/shifts, padding bases, non-minimal and non-zero-padding rejections, residue (-p) mod 4 on both sides), TL2 varlen sizes in Write/Put/Calculate/Parse, fixed-width pairs (little-endian, reader consumes what writer appends), bit vectors (8 per byte, LSB first, partial tail) and that every truncation guard returns io.ErrUnexpectedEOF, for pkg/basictl and the two linked copies. Does not execute a round trip.",
@@ -94,7 +94,7 @@ CLAIMED = {
          "Decides the writer tables (strconv appenders with matching signedness/base/bit size, NaN/±Inf spellings, UTF-8 test first, base64 StdEncoding envelope, safeSet excludes control bytes, quote and backslash, escape arms, U+2028/9) and the reader tables of the generated Json2Read helpers (ParseInt/ParseUint/ParseFloat with the same signedness and bit size, lexer method for the number form, base64 object as the only object form), plus clone isomorphism of the string/[]byte writers. strconv and the easyjson lexer are trusted; no value is round-tripped.",
          "trusts strconv, encoding/base64, easyjson", "DESIGN.md §3 C34"),
  "C35": ("other", "must-pass-through, offset-table and who-may-read rules on the packet reader/writer",
-         "Decides that no success path of the packet body/header readers bypasses the CRC comparison, the sequence-number test, the length-range and alignment tests or the zero-padding test; that the CRC operands are header[:12] then body on both sides with the same table; that header fields sit at the same offsets in writer and reader; that sequence counters are bumped exactly once per packet; that the trailer padding rule equals the reader's; and that the connection's reader is consumed only via io.ReadFull. 'Any corrupted byte is detected' is decided only as this necessary structure, not for the cipher or CRC mathematics.",
+         "Decides that no success path of the packet body/header readers bypasses the CRC comparison, the sequence-number test, the length-range and alignment tests or the zero-padding test; that the CRC operands are header[:12] then body on both sides with the same table; that header fields sit at the same offsets in writer and reader; that sequence counters are bumped exactly once per packet; that the trailer padding rule equals the reader's; and that the connection's reader is consumed only via io.ReadFull. A reused buffer is resliced only to the capacity that was tested (`if cap(b) < n {make} else {b = b[:n]}` with one n). 'Any corrupted byte is detected' is decided only as this necessary structure, not for the cipher or CRC mathematics.",
          "clause only; trusts hash/crc32, crypto/cipher, io.ReadFull", "DESIGN.md §3 C35"),
  "C36": ("other", "who-may-write + control-dependence on the memory accounting, thread confinement on the VTA call graph, lockset for writeMu state, monotone-writer rule for ack prefixes",
          "Does NOT decide exactly-once delivery (a schedule/fault property). Decides necessary structure: incoming-message memory is increased only under acquired+requested <= limit and decreased only after an underflow guard and followed by waking waiters; the accounting and the goRead/goWrite-local state are touched only by functions reachable from their documented owner goroutine and from no other goroutine root or exported API (the code's own 'no synchronization needed' comment, checked on the call graph); state shared between goroutines is accessed only under writeMu (including through c.incoming.transport.… paths and the conditional lock hand-over of goWriteStep, which is verified as a summary); every write to the three acknowledged-prefix fields is ++ or max(self, …).",
@@ -103,10 +103,10 @@ CLAIMED = {
          "Does NOT decide that the acknowledgement set equals the union of recorded ranges (value-level set arithmetic). Decides the structural clauses: BuildAck writes ackPrefix-1 only when ackPrefix>0, takes from/to from the first node's own bounds and enumerates the ack set from one node's ackFrom to the same node's ackTo (capped), so no number outside a stored range is acknowledged; BuildNegativeAck requests exactly the gaps between the prefix and the ranges; AddAckRange links every new node to its successor and predecessor, merges by min/max of the node's own bounds, carries the lower bound when unlinking an absorbed node and lets the prefix absorb leading ranges.",
          "clause only; exact-shape rules on three small functions (a rewrite of them needs re-triage)", "DESIGN.md §8.2"),
  "C38": ("other", "lockset over client/server connection state (methods + every holder of the type), call-table pairing rules, who-may-write of call identity",
-         "Decides the data-race clause for the connection state (every access to the call table, write queues, in-flight counters, status flags with the connection mutex held; Locked helpers called only under the lock) and the structural clauses of 'own response': calls registered under their own atomic-counter id, responses dispatched by the id decoded from their header, finishCall looks up/deletes/delivers the same entry, every delete from the call table delivers or returns the entry on all paths, pending calls are re-queued only while the connection is not closed and Close reaches every connection, and call ids/result channels are written only before registration. Scheduling, network faults and the race detector's dynamic judgement are not decided.",
+         "Decides the data-race clause for the connection state (every access to the call table, write queues, in-flight counters, status flags with the connection mutex held; Locked helpers called only under the lock) and the structural clauses of 'own response': calls registered under their own atomic-counter id, responses dispatched by the id decoded from their header, finishCall looks up/deletes/delivers the same entry, every delete from the call table delivers or returns the entry on all paths, pending calls are re-queued only while the connection is not closed and Close reaches every connection, and call ids/result channels are written only before registration. A response buffer stored into a call is always reported as taken to the receive loop (one owner). Scheduling, network faults and the race detector's dynamic judgement are not decided.",
          "clause only; closures passed to goroutines are analysed as unlocked code only when they touch guarded fields (none do)", "DESIGN.md §3 C38"),
  "C39": ("other", "who-may-call, control-dependence, lockset and acquire/release pairing rules on the server",
-         "Decides that handlers run only from worker.run or the documented inline fallback (guarded by MaxWorkers<=0 or pool exhaustion), that worker goroutines are started only after workerPool.Get admitted one under created<create with mu held, that pool counters are lock-protected, and that request memory is read into only after an error-checked semaphore acquire for the same amount which is released exactly once. Numeric behaviour under load is a schedule property and is not decided.",
+         "Decides that handlers run only from worker.run or the documented inline fallback (guarded by MaxWorkers<=0 or pool exhaustion), that worker goroutines are started only after workerPool.Get admitted one under created<create with mu held, that pool counters are lock-protected, and that request memory is read into only after an error-checked semaphore acquire for the same amount which is released exactly once. Retiring a worker closes its channel and uncounts it exactly once, in the same block, in every function of the package. Numeric behaviour under load is a schedule property and is not decided.",
          "clause only; trusts C42 for the semaphore", "DESIGN.md §3 C39"),
  "C40": ("other", "sibling agreement of hand-inlined header wrappers with the generated codecs, tag-set containment, ordering and who-may-write rules",
          "Decides that each hand-inlined wrapper in preparePacket/ParseInvokeReq/prepareResponseBody/parseResponseExtra has exactly the wire program of the generated type whose tag it uses; every wrapper tag a writer can emit is handled by the opposite reader; the TL2 marker is written last and required last; duplicates are rejected; actor id, extras, query id and error code/description map one-to-one between struct fields and wire; and the only writes to Request.Extra/ActorID, HandlerContext.RequestExtra/ResponseExtra/actorID and Response.Extra inside pkg/rpc are the 14 triaged ones (decode itself, documented timeout min-rule, context injection only when unset, response mask by request flags). The generated Extra codecs themselves are C01's subject.",
